@@ -6,6 +6,7 @@ import (
 	"go/token"
 	"go/types"
 	"golang.org/x/tools/go/packages"
+	"sort"
 	"strings"
 )
 
@@ -644,4 +645,243 @@ func strippedEndsAreAPair(c *Ctx, rule string) {
 	}
 	c.count("end-stripping_sites", n)
 	c.floor(rule, 1)
+}
+
+// noCallerIOUnderPackageLock: C14.R18 — no write to (or render into) a writer happens while a package-level mutex is
+// held. Such a mutex is shared by every render of the process; the writer is the caller's (a network connection, a
+// pipe) and may block for as long as its reader pleases. Held across the write, one slow client stalls every other
+// render that needs the lock — and a reader that itself renders never gets it: the renders are no longer independent
+// of each other's schedule.
+func noCallerIOUnderPackageLock(c *Ctx, rule string, rels ...string) {
+	n, nlocked := 0, 0
+	for _, rel := range rels {
+		p := c.pkg(rel)
+		if p == nil {
+			continue
+		}
+		info := p.TypesInfo
+		pkgMutex := func(key string) bool {
+			name := strings.TrimSuffix(strings.TrimSuffix(key, "#R"), ".RLock")
+			if i := strings.IndexAny(name, "#"); i >= 0 {
+				name = name[:i]
+			}
+			o := p.Types.Scope().Lookup(name)
+			_, isVar := o.(*types.Var)
+			return isVar
+		}
+		for _, fd := range allFuncDecls(p) {
+			if fd.Body == nil {
+				continue
+			}
+			k := 0
+			ast.Inspect(fd.Body, func(x ast.Node) bool {
+				call, ok := x.(*ast.CallExpr)
+				if !ok {
+					return true
+				}
+				_, what, isW := writerCall(info, call)
+				if !isW {
+					return true
+				}
+				n++
+				var held []string
+				for h := range heldAtDeep(p, fd, call) {
+					if pkgMutex(h) {
+						held = append(held, h)
+					}
+				}
+				if len(held) == 0 {
+					return true
+				}
+				sort.Strings(held)
+				k++
+				nlocked++
+				c.viol(rule, fmt.Sprintf("%s|write-under-lock#%d", funcKey(p, fd), k), c.pos(call.Pos()),
+					fmt.Sprintf("%s calls %s while the package-level lock %s is held: the writer is the caller's and may block (a slow client, a pipe whose reader waits), and the lock is shared by every render of the process — one blocked write stalls all other renders that need it, and deadlocks when the writer's reader renders too", fd.Name.Name, what, strings.Join(held, ", ")))
+				return true
+			})
+		}
+	}
+	c.count("writes_checked_for_held_locks", n)
+	if nlocked == 0 {
+		c.ok(rule, "no-write-under-a-package-level-lock", "", fmt.Sprintf("none of the %d writer calls of the runtime packages runs with a package-level mutex held", n))
+	}
+}
+
+// nothingTouchesAPooledObjectAfterPut: C14.R19 — once an object is handed to sync.Pool.Put, another goroutine's Get
+// may return it at once; the function that put it must not touch it again. Deferred calls run in reverse order of
+// their defer statements, after the function body: a deferred call that mentions the object and was deferred BEFORE a
+// deferred Put runs after it; any deferred use runs after a Put in the body; and a use in the body that is reachable
+// from a Put in the body comes after it.
+func nothingTouchesAPooledObjectAfterPut(c *Ctx, rule string, rels ...string) {
+	n := 0
+	for _, rel := range rels {
+		p := c.pkg(rel)
+		if p == nil {
+			continue
+		}
+		info := p.TypesInfo
+		for _, fd := range allFuncDecls(p) {
+			if fd.Body == nil {
+				continue
+			}
+			type put struct {
+				call     *ast.CallExpr
+				obj      types.Object
+				deferred *ast.DeferStmt
+			}
+			var puts []put
+			var defers []*ast.DeferStmt
+			ast.Inspect(fd.Body, func(x ast.Node) bool {
+				switch t := x.(type) {
+				case *ast.FuncLit:
+					return false
+				case *ast.DeferStmt:
+					defers = append(defers, t)
+				}
+				return true
+			})
+			deferOf := func(call *ast.CallExpr) *ast.DeferStmt {
+				for _, d := range defers {
+					if d.Call.Pos() <= call.Pos() && call.End() <= d.Call.End() {
+						return d
+					}
+				}
+				return nil
+			}
+			ast.Inspect(fd.Body, func(x ast.Node) bool {
+				call, ok := x.(*ast.CallExpr)
+				if !ok || len(call.Args) != 1 {
+					return true
+				}
+				if fn := calleeOf(info, call); fn == nil || fullName(fn) != "sync.(Pool).Put" {
+					return true
+				}
+				if id, ok := ast.Unparen(call.Args[0]).(*ast.Ident); ok && info.ObjectOf(id) != nil {
+					puts = append(puts, put{call, info.ObjectOf(id), deferOf(call)})
+				}
+				return true
+			})
+			if len(puts) == 0 {
+				continue
+			}
+			fc := newFnCFG(fd.Body, info)
+			for pi, pt := range puts {
+				n++
+				bad := ""
+				ast.Inspect(fd.Body, func(x ast.Node) bool {
+					id, ok := x.(*ast.Ident)
+					if !ok || info.Uses[id] != pt.obj || bad != "" {
+						return true
+					}
+					if pt.call.Pos() <= id.Pos() && id.End() <= pt.call.End() {
+						return true // the Put itself
+					}
+					var useDefer *ast.DeferStmt
+					for _, d := range defers {
+						if d.Call.Pos() <= id.Pos() && id.End() <= d.Call.End() {
+							// arguments of a deferred call are evaluated at the defer statement; the receiver's and the
+							// body's use happens when it runs. A plain method call x.M(...) or f(x) on a pointer uses the object then.
+							useDefer = d
+						}
+					}
+					switch {
+					case pt.deferred != nil && useDefer != nil && useDefer.Pos() < pt.deferred.Pos():
+						bad = fmt.Sprintf("the call deferred at %s uses %s, and it was deferred before the Put at %s — deferred calls run last-in first-out, so it runs AFTER the object went back to the pool", c.pos(useDefer.Pos()), id.Name, c.pos(pt.deferred.Pos()))
+					case pt.deferred == nil && useDefer != nil:
+						bad = fmt.Sprintf("the call deferred at %s uses %s when the function returns, after the Put at %s", c.pos(useDefer.Pos()), id.Name, c.pos(pt.call.Pos()))
+					case pt.deferred == nil && useDefer == nil && !inFuncLit(fd.Body, id) && fc.reachable(pt.call, id):
+						// (a re-assignment of the variable is not a use of the object)
+						isLHS := false
+						ast.Inspect(fd.Body, func(y ast.Node) bool {
+							if as, ok := y.(*ast.AssignStmt); ok {
+								for _, l := range as.Lhs {
+									if l == ast.Expr(id) {
+										isLHS = true
+									}
+								}
+							}
+							return true
+						})
+						if !isLHS {
+							bad = fmt.Sprintf("%s is used at %s, which is reachable from the Put at %s", id.Name, c.pos(id.Pos()), c.pos(pt.call.Pos()))
+						}
+					}
+					return true
+				})
+				key := fmt.Sprintf("%s|put#%d|untouched-after-put", funcKey(p, fd), pi+1)
+				c.check(bad == "", rule, key, c.pos(pt.call.Pos()), "nothing in the function uses the object after it was put into the pool",
+					fd.Name.Name+": "+bad+": another goroutine's Get may already have been handed the object — its render and this use race on the same buffer (a reset under a running render, bytes of one render in another's output)")
+			}
+		}
+	}
+	c.count("pool_puts", n)
+	c.floor(rule, 2)
+}
+
+// findTempFilesOutsideTheTargetDirectory: os.CreateTemp / os.MkdirTemp whose directory argument is "" or os.TempDir().
+func findTempFilesOutsideTheTargetDirectory(info *types.Info, root ast.Node) []*ast.CallExpr {
+	var out []*ast.CallExpr
+	ast.Inspect(root, func(x ast.Node) bool {
+		call, ok := x.(*ast.CallExpr)
+		if !ok || len(call.Args) != 2 {
+			return true
+		}
+		fn := calleeOf(info, call)
+		if fn == nil || (fullName(fn) != "os.CreateTemp" && fullName(fn) != "io/ioutil.TempFile") {
+			return true
+		}
+		dir := ast.Unparen(call.Args[0])
+		if s, isC := constString(info, dir); isC && s == "" {
+			out = append(out, call)
+		} else if dc, ok := dir.(*ast.CallExpr); ok {
+			if dfn := calleeOf(info, dc); dfn != nil && fullName(dfn) == "os.TempDir" {
+				out = append(out, call)
+			}
+		}
+		return true
+	})
+	return out
+}
+
+// renamedFilesAreCreatedNextToTheirTarget: C16.R13 — a file that is written aside and then renamed onto its target
+// (the development-mode text file, a generated file) is created in the TARGET's directory. os.Rename does not cross
+// file systems: a temporary file from os.CreateTemp("", …) / os.TempDir() cannot be renamed onto a project that lives
+// on another mount (a container volume, tmpfs), the write fails every time, the text file is never produced and the
+// running program cannot render what a fresh build would.
+func renamedFilesAreCreatedNextToTheirTarget(c *Ctx, rule string, rels ...string) {
+	n, nbad := 0, 0
+	for _, rel := range rels {
+		p := c.pkg(rel)
+		if p == nil {
+			continue
+		}
+		info := p.TypesInfo
+		for _, fd := range allFuncDecls(p) {
+			renames := false
+			ast.Inspect(fd.Body, func(x ast.Node) bool {
+				if call, ok := x.(*ast.CallExpr); ok {
+					if fn := calleeOf(info, call); fn != nil && fullName(fn) == "os.Rename" {
+						renames = true
+						n++
+					}
+				}
+				return true
+			})
+			if !renames {
+				continue
+			}
+			for i, tc := range findTempFilesOutsideTheTargetDirectory(info, fd.Body) {
+				nbad++
+				c.viol(rule, fmt.Sprintf("%s|temp-file#%d|created-next-to-its-target", funcKey(p, fd), i+1), c.pos(tc.Pos()),
+					fmt.Sprintf("%s creates the file it later renames onto its target in the system's temporary directory (%s): os.Rename cannot move a file to another file system, so for a project that is not on the same mount as the temporary directory every write fails — the text file (or generated file) is never produced, and the program running in development mode cannot show what a fresh build shows", fd.Name.Name, types.ExprString(tc)))
+			}
+		}
+	}
+	fc, finfo, ok := checkSnippet(c, "package control\nimport \"os\"\nfunc f(name string, b []byte) error { t, err := os.CreateTemp(\"\", \"x\"); if err != nil { return err }; t.Write(b); t.Close(); return os.Rename(t.Name(), name) }\n")
+	c.control(rule+":temp-dir-detector", ok && len(findTempFilesOutsideTheTargetDirectory(finfo, fc)) == 1)
+	c.count("rename_sites", n)
+	if nbad == 0 {
+		c.ok(rule, "no-rename-from-the-temporary-directory", "", fmt.Sprintf("%d os.Rename site(s); none of them moves a file created in os.TempDir()", n))
+	}
 }
